@@ -479,6 +479,86 @@ theorem ggufLayers_within (bs : Bytes) (budget : Option Nat) (g : Guards) (maxSe
   · cases h
   · exact ggufLayersLoop_within bs budget g maxSeek _ _ _ _ (by intro l hl; cases hl) h
 
+/-- no layer reaches past the position `lim` (the next decode start) -/
+def EndsBy (lim : Nat) (ls : List GLayer) : Prop := ∀ l ∈ ls, l.start + l.size ≤ lim
+
+/-- layers do not overlap: each one ends where or before the next one starts, in upload order
+    (`List.Pairwise`: every layer ends by the start of every LATER layer) -/
+def Disjoint (ls : List GLayer) : Prop := ls.Pairwise (fun a b => a.start + a.size ≤ b.start)
+
+theorem ggufLayersLoop_disjoint (bs : Bytes) (budget : Option Nat) (g : Guards) (hg : g.negSeek = true) (maxSeek : Nat) :
+    ∀ (fuel offset : Nat) (acc out : List GLayer), Disjoint acc → EndsBy offset acc →
+      ggufLayersLoop bs budget g maxSeek fuel offset acc = some (.ok out) → Disjoint out := by
+  intro fuel
+  induction fuel with
+  | zero =>
+    intro offset acc out hd he h
+    unfold ggufLayersLoop at h
+    split at h
+    · cases h
+    · cases h; exact hd
+  | succ fuel ih =>
+    intro offset acc out hd he h
+    unfold ggufLayersLoop at h
+    split at h
+    · rename_i hlt
+      cases hdec : decodeFrom ⟨bs.drop offset, offset⟩ 0 budget g with
+      | error e =>
+        rw [hdec] at h
+        cases e with
+        | eof =>
+          simp only [] at h
+          split at h
+          · cases h
+          · cases h; exact hd
+        | ueof => cases h
+        | invalid w => cases h
+        | panic w => cases h
+        | alloc w n => cases h
+      | ok d =>
+        rw [hdec] at h
+        simp only [] at h
+        split at h
+        · cases h
+        cases hm : mediaType g d.kvs with
+        | error e => rw [hm] at h; cases h
+        | ok m =>
+        rw [hm] at h
+        simp only [] at h
+        have hp := decodeFrom_progress ⟨bs.drop offset, offset⟩ 0 budget g hg d hdec
+        simp only [] at hp
+        refine ih _ _ _ ?_ ?_ h
+        · -- the new layer starts at `offset`, where every earlier layer has ended
+          unfold Disjoint
+          rw [List.pairwise_append]
+          refine ⟨hd, by simp, ?_⟩
+          intro a ha b hb
+          simp only [List.mem_singleton] at hb
+          subst hb
+          exact he a ha
+        · -- … and ends by the next decode start
+          intro l hl
+          rcases List.mem_append.mp hl with hl | hl
+          · have := he l hl; omega
+          · simp only [List.mem_singleton] at hl
+            subst hl
+            simp only []
+            split
+            · rename_i hw
+              simp only [decide_eq_true_eq] at hw
+              omega
+            · omega
+    · cases h; exact hd
+
+/-- **Layers cut out of an upload do not overlap** (each is its model's own extent): for every byte string -/
+theorem ggufLayers_disjoint (bs : Bytes) (budget : Option Nat) (g : Guards) (hg : g.negSeek = true) (maxSeek : Nat)
+    (out : List GLayer) (h : ggufLayers bs budget g maxSeek = some (.ok out)) : Disjoint out := by
+  unfold ggufLayers at h
+  simp only [] at h
+  split at h
+  · cases h
+  · exact ggufLayersLoop_disjoint bs budget g hg maxSeek _ _ _ _ List.Pairwise.nil (by intro l hl; cases hl) h
+
 theorem ggufLayersLoop_done (bs : Bytes) (budget : Option Nat) (g : Guards) (maxSeek fuel offset : Nat) (acc : List GLayer)
     (h : bs.length ≤ offset) : ggufLayersLoop bs budget g maxSeek fuel offset acc = some (.ok acc) := by
   cases fuel with
